@@ -303,11 +303,19 @@ CMT_CTX = [('x = 1', (('body', 0),)), ('if a:\n    b  # old\nc', (('body', 0), (
            ('def f():\n\treturn (1,\n\t\t2)', (('body', 0), ('body', 0))),
            # last statement two and three block levels down (its comment is part of every enclosing block's extent)
            ('class C:\n    def m(self):\n        return 1  # old\nz = 0', (('body', 0), ('body', 0), ('body', 0))),
-           ('if a:\n    for i in j:\n        while k:\n            l\nm', (('body', 0), ('body', 0), ('body', 0), ('body', 0)))]
+           ('if a:\n    for i in j:\n        while k:\n            l\nm', (('body', 0), ('body', 0), ('body', 0), ('body', 0))),
+           # the comment of a later section header of the statement (field argument): else / elif (tests containing ':') / finally
+           ('if a:\n    b\nelse:\n    c', (('body', 0),), 'orelse'),
+           ('if a:\n    b\nelif c[1:2]:  # old\n    d\nelse:\n    e', (('body', 0),), 'orelse'),
+           ("if a:\n    b\nelif (n := g()) == {1: 'x:y'}:\n    d", (('body', 0),), 'orelse'),
+           ('for i in j:\n    k\nelse:  # old\n    l', (('body', 0),), 'orelse'),
+           ('try:\n    a\nexcept E:\n    b\nelse:\n    c\nfinally:\n    d', (('body', 0),), 'finalbody'),
+           ('if a:\n    b\nelif c: d\ne', (('body', 0),), 'orelse')]
 
 
 def comment_case(fst, ci, text, res):
-    src, path = CMT_CTX[ci]
+    src, path, *fld = CMT_CTX[ci]
+    fld = fld[0] if fld else None
     cid = f'C08/cmt/{ci}/{text!r}'
     rep = {'cmt': ci, 'text': text}
     root = fst.FST(src, 'exec')
@@ -320,7 +328,7 @@ def comment_case(fst, ci, text, res):
     for k in range(1, len(path)):
         node_at(root, path[:k]).own_src()
     try:
-        n.put_line_comment(text)
+        n.put_line_comment(text, fld)
     except Exception as e:  # noqa: BLE001
         if '\n' in text or '\r' in text or '\x0c' in text or '\x00' in text:
             res.outcomes['comment-with-linebreak-refused'] += 1
@@ -334,7 +342,7 @@ def comment_case(fst, ci, text, res):
     if bad:
         res.fail(cid, 'C01-after-put_line_comment', f'text={text!r}\n{bad}', {'accessor': 'comment', 'linebreak': any(c in text for c in '\n\r\x0c\x00')}, rep)
         return
-    got = node_at(root, path).get_line_comment()
+    got = node_at(root, path).get_line_comment(fld)
     want = text.strip()
     if want.startswith('#'):
         want2 = want.lstrip('#').strip()
